@@ -20,7 +20,18 @@ func ImpliedSchema(spec Spec) *hcl.BodySchema {
 	var visit visitFunc
 	visit = func(s Spec) {
 		if as, ok := s.(attrSpec); ok {
-			attrs = append(attrs, as.attrSchemata()...)
+		Attrs:
+			for _, attrS := range as.attrSchemata() {
+				// The same attribute can be described more than once (e.g. by
+				// both sides of a DefaultSpec); the schema names it once.
+				for i := range attrs {
+					if attrs[i].Name == attrS.Name {
+						attrs[i].Required = attrs[i].Required || attrS.Required
+						continue Attrs
+					}
+				}
+				attrs = append(attrs, attrS)
+			}
 		}
 
 		if bs, ok := s.(blockSpec); ok {
